@@ -173,21 +173,34 @@ var reTrailLegal = regexp.MustCompile(`(?m)^/\*! For license information please 
 // ClassifyDiff says how two different byte strings emitted under the same
 // path differ. The classes name the known ways in which the name does not
 // determine the bytes; everything else is "other".
-func ClassifyDiff(rel string, a, b []byte, pathsA, pathsB []string) string {
+func ClassifyDiff(rel string, a, b []byte, oa, ob *Opt) string {
 	if strings.HasSuffix(rel, ".LEGAL.txt") {
 		return "legal-comments-file-not-hashed"
 	}
+	// the two option findings are about the MODE being changed between the builds;
+	// a differing trailing comment under the same mode (e.g. an inline map with
+	// other contents) is not one of them
+	smChanged, legalChanged := oa.Sourcemap != ob.Sourcemap, oa.Legal != ob.Legal
 	a1, b1 := reTrailSM.ReplaceAll(a, nil), reTrailSM.ReplaceAll(b, nil)
 	if bytes.Equal(a1, b1) {
-		return "sourcemap-comment"
+		if smChanged {
+			return "sourcemap-comment"
+		}
+		return "other/source-map-comment-differs-under-the-same-mode"
 	}
 	a2, b2 := reTrailLegal.ReplaceAll(a, nil), reTrailLegal.ReplaceAll(b, nil)
 	if bytes.Equal(a2, b2) {
-		return "legal-comments-option"
+		if legalChanged {
+			return "legal-comments-option"
+		}
+		return "other/legal-link-differs-under-the-same-mode"
 	}
 	a3, b3 := reTrailLegal.ReplaceAll(a1, nil), reTrailLegal.ReplaceAll(b1, nil)
 	if bytes.Equal(a3, b3) {
-		return "sourcemap-comment+legal-comments-option"
+		if smChanged && legalChanged {
+			return "sourcemap-comment+legal-comments-option"
+		}
+		return "other/trailing-comments-differ"
 	}
 	// same text up to a permutation of the references to other emitted files?
 	na, ra := normaliseRefs(rel, a3)
